@@ -107,8 +107,11 @@ def run_family(res, pid, systems, state_fields, sys_fields, real_counts=True, ne
     states, syss = judge(wd, systems, recs)
     nstates = 0
     distinct_sys = set()
+    conform_ok = True
     for j in states:
         nstates += 1
+        if any(f in j["failed"] for f in ("enabled", "trans", "init")):
+            conform_ok = False
         if any(f in j["applied"] for f in state_fields):
             distinct_sys.add(j["sys"])
         for f in state_fields:
@@ -131,7 +134,7 @@ def run_family(res, pid, systems, state_fields, sys_fields, real_counts=True, ne
     res.extra["recorded_transitions_judged"] = res.extra.get("recorded_transitions_judged", 0) + sum(
         len(r.get("edges", [])) + len(r.get("ignored", [])) for r in recs)
     cnt = mc_systems(res, wd, systems, recs)
-    if cnt and cnt[0] != cnt[1] and not res.violations:
+    if cnt and cnt[0] != cnt[1] and not res.violations and conform_ok:
         # TLC's exploration of the spec and the recorder's exploration of the code disagree although every
         # recorded state conformed: the recorder missed states or the spec has states the code cannot reach
         raise ToolError("state counts differ: TLC %d vs recorder %d" % cnt)
